@@ -313,11 +313,50 @@ def rule_scope_flags(rep: Report, repo: Repo):
     rets = [n for n in own_nodes(f) if isinstance(n, ast.Return)]
     ok = any(norm(r.value) == "(outputs['H_tilde'], outputs['U'], outputs['U†'])" for r in rets)
     rep.check(ok, R, f"{MOD}::block_diagonalize returns (H_tilde, U, U†) in this order", "", loc(rets[-1] if rets else f))
-    # equal_eigs: degenerate pairs (|E_a - E_b| < atol) -- symmetric by construction
+    # equal_eigs: the kept pairs of a fully diagonalised block are the pairs the diagonal solver treats as
+    # degenerate: numeric |E_a - E_b| < atol with the same `atol` that is handed to the solver; symbolic: equality
     ee = [n for n in own_nodes(f) if isinstance(n, ast.Assign) and norm(n.targets[0]) == "equal_eigs"]
-    ok = len(ee) == 1 and "np.abs(diagonal[i].reshape(-1, 1) - diagonal[i]) < atol" in norm(ee[0].value) \
-        and "for i in set(fully_diagonalize)" in norm(ee[0].value)
-    rep.check(ok, R, f"{MOD}::block_diagonalize kept pairs of a fully diagonalised block are the degenerate pairs |E_a - E_b| < atol",
-              "", loc(ee[0] if ee else f))
+    pred = None
+    if len(ee) == 1 and isinstance(ee[0].value, ast.DictComp):
+        dc = ee[0].value
+        keyvar = norm(dc.key)
+        over = norm(dc.generators[0].iter)
+        arms = [dc.value]
+        if isinstance(dc.value, ast.IfExp):
+            arms = [dc.value.body, dc.value.orelse]
+        preds = []
+        for arm in arms:
+            e = arm
+            while isinstance(e, ast.Call) and isinstance(e.func, ast.Attribute) and e.func.attr == "astype":
+                e = e.func.value
+            if isinstance(e, ast.Compare) and len(e.ops) == 1:
+                l, r, op = e.left, e.comparators[0], e.ops[0]
+                if isinstance(l, ast.Call) and call_name(l) in ("np.abs", "abs") and isinstance(l.args[0], ast.BinOp) \
+                        and isinstance(l.args[0].op, ast.Sub) and isinstance(op, (ast.Lt, ast.LtE)):
+                    d = l.args[0]
+                    pair = {norm(d.left), norm(d.right)} == {f"diagonal[{keyvar}].reshape(-1, 1)", f"diagonal[{keyvar}]"}
+                    preds.append(("numeric", "|E_a - E_b| < tol", norm(r), pair))
+                    continue
+                if isinstance(op, ast.Eq) and norm(r) == "True" and isinstance(l, ast.Compare) and isinstance(l.ops[0], ast.Eq):
+                    pair = {norm(l.left), norm(l.comparators[0])} == {f"diagonal[{keyvar}].reshape(-1, 1)", f"diagonal[{keyvar}]"}
+                    preds.append(("exact", "E_a == E_b", None, pair))
+                    continue
+            preds.append(("?", norm(arm)[:60], None, False))
+        pred = (over, preds)
+    ok = pred is not None and pred[0] == "set(fully_diagonalize)" and all(p[3] for p in pred[1]) \
+        and any(p[0] == "numeric" and p[2] == "atol" for p in pred[1]) and all(p[0] in ("numeric", "exact") for p in pred[1])
+    # a numeric block must never be compared exactly: the exact arm is only for symbolic (object) diagonals
+    if ok and len(pred[1]) == 2:
+        test = norm(ee[0].value.value.test)
+        ok = test in ("diagonal[i].dtype != object", "diagonal[i].dtype == object") and \
+            ((pred[1][0][0] == "numeric") == (test == "diagonal[i].dtype != object"))
+    elif ok:
+        ok = pred[1][0][0] == "numeric"
+    rep.check(ok, R, f"{MOD}::block_diagonalize kept pairs of a fully diagonalised block are the degenerate pairs |E_a - E_b| < atol (exact only for symbolic energies)",
+              str(pred), loc(ee[0] if ee else f))
+    sd = [c for c in own_nodes(f) if isinstance(c, ast.Call) and call_name(c) == "solve_sylvester_diagonal"]
+    ok = len(sd) == 1 and {k.arg: norm(k.value) for k in sd[0].keywords}.get("atol") == "atol" and norm(sd[0].args[0]) == "diagonal"
+    rep.check(ok, R, f"{MOD}::block_diagonalize the diagonal solver gets the same energies and the same tolerance as the kept-pairs mask",
+              "degenerate (kept) pairs are exactly the pairs the solver answers with 0", loc(sd[0] if sd else f))
     tk = [n for n in own_nodes(f) if isinstance(n, ast.Assign) and norm(n.targets[0]) == "to_keep" and norm(n.value) == "equal_eigs"]
     rep.check(len(tk) == 1, R, f"{MOD}::block_diagonalize full diagonalisation keeps exactly the degenerate pairs (Rayleigh-Schrodinger)", "", loc(tk[0] if tk else f))
